@@ -77,6 +77,65 @@ def ofRes : Option Res → LeaseRes
   | some .err => .other
   | none => .other
 
+/-! ### `acquirePartitionLeases` / `PartitionLeaseManager.AcquireAll` over the lease model
+
+`AcquireAll` returns one result per requested partition: partitions already in the ownership set are
+skipped (result nil, no etcd round trip), EVERY other one gets an `Acquire` call whose error is its
+result.  `acquirePartitionLeases` turns the non-nil results into a map; a partition without an entry
+counts as "lease fine" (`leaseOf` defaults to nil) — which is only sound because every requested
+partition did get an attempt (`acquireAll_covers_every_partition`, `acquireAll_nil_owned`).
+The acquires run concurrently in the code; they touch different resources, so the sequential fold
+yields the same results (request partitions are assumed pairwise distinct). -/
+
+def isTxnPC : PC → Bool
+  | .txn _ => true
+  | .re _ => true
+  | _ => false
+
+/-- drive the in-flight acquire `(b, r)` to completion; `fail`: its lease transactions error out -/
+def finishAcquire (b r : Nat) (fail : Bool) : Nat → Lease.State → Lease.State × Option Res
+  | 0, l => (l, none)
+  | fuel + 1, l =>
+    match l.acq b r with
+    | none => (l, none)
+    | some pc =>
+      if fail && isTxnPC pc then ((Lease.step .byRev l (.abort b r)).1, some .err)
+      else
+        match Lease.step .byRev l (.step b r) with
+        | (l', some x) => (l', some x)
+        | (l', none) => finishAcquire b r fail fuel l'
+
+/-- one `Acquire(r)` call of broker `b`, run to completion -/
+def runAcquire (l : Lease.State) (b r : Nat) (fail : Bool) : Lease.State × Option Res :=
+  match Lease.step .byRev l (.acquire b r) with
+  | (l1, some x) => (l1, some x)
+  | (l1, none) => finishAcquire b r fail 12 l1
+
+/-- `AcquireAll` as a map over the request's partitions -/
+def acquireAll (b : Nat) (fail : Bool) : Lease.State → List Nat → Lease.State × List (Nat × LeaseRes)
+  | l, [] => (l, [])
+  | l, p :: ps =>
+    if owns l b p then
+      let r := acquireAll b fail l ps
+      (r.1, (p, .nil) :: r.2)
+    else
+      let a := runAcquire l b p fail
+      let r := acquireAll b fail a.1 ps
+      (r.1, (p, ofRes a.2) :: r.2)
+
+/-- `leaseErrors[partition]`: no entry = no error -/
+def leaseOf (results : List (Nat × LeaseRes)) (p : Nat) : LeaseRes :=
+  match results.find? (fun x => x.1 == p) with
+  | some x => x.2
+  | none => .nil
+
+/-- the lease/health gating of one produce request: leases for ALL partitions first, then the
+per-partition decision list (`env p` = everything but the lease result) -/
+def produceRequest (b : Nat) (fail : Bool) (env : Nat → PartIn) (l : Lease.State) (parts : List Nat) :
+    Lease.State × List (Nat × PartOut) :=
+  let a := acquireAll b fail l parts
+  (a.1, parts.map fun p => (p, producePart { env p with lease := leaseOf a.2 p }))
+
 /-! ### interleaved system: lease protocol steps ∥ one handler per broker -/
 
 /-- a recorded append: broker, partition, and whether the broker held the lease at that moment
